@@ -1,4 +1,5 @@
 import LlgoVerif.Lemmas.CAbi
+import LlgoVerif.Spec.AAPCS64
 /-!
 # C09 — lemmas for the repaired classifier: real layouts of nested types
 
@@ -992,5 +993,157 @@ theorem wf_flat (fs : List Scalar) : (CType.struct (fs.map .sc)).wf = true := by
   induction fs with
   | nil => simp [wfL]
   | cons s r ih => simp [wfL, CType.wf, ih]
+
+/-! ## arm64 -/
+
+theorem allEq_ptrOrI64 (a : Scalar) (r : List Scalar) (h : isPtrOrI64 a = true) :
+    allEq (a :: r) .f32 = false ∧ allEq (a :: r) .f64 = false := by
+  cases a <;> simp_all [isPtrOrI64, allEq]
+
+theorem isHFA_single_sse (s : Scalar) (h : AAPCS64.isHFA [s] = none) : s.isSSE = false := by
+  cases s <;> simp_all [AAPCS64.isHFA, allEq, Scalar.isSSE]
+
+/-- `TypeInfoArm64.GetTypeInfo` is sound on every good layout of an aggregate -/
+theorem arm64_sound_good (v : View) (g : GoodView v) (isRet : Bool) :
+    AAPCS64.Sound (classifyArm64V v true isRet) v := by
+  unfold AAPCS64.Sound classifyArm64V
+  by_cases h0 : v.size = 0
+  · have hel : v.elems = [] := by
+      cases hel : v.elems with
+      | nil => rfl
+      | cons x r =>
+        have := (g.leaf x (by rw [hel]; simp)).2
+        have := size_pos x.2
+        omega
+    cases isRet <;> simp [h0, hel, AAPCS64.kindImage, AAPCS64.classify, AAPCS64.directImage]
+  · rw [if_neg h0]
+    obtain ⟨x0, r0, hel0, hx0⟩ := good_head0 v g h0
+    have hM8 : v.align ≤ 8 := by rcases g.al with h | h | h | h <;> omega
+    have hlenEq : v.types.length = v.elems.length := by rw [g.types_eq]; simp
+    have hty := g.types_eq
+    unfold getTypeInfoArm64
+    simp only [Bool.not_true, Bool.false_eq_true, if_false]
+    -- result with a single leaf
+    by_cases hb1 : (isRet && v.types.length == 1) = true
+    · rw [if_pos hb1]
+      simp only [Bool.and_eq_true, beq_iff_eq] at hb1
+      have hr0 : r0 = [] := by
+        rw [hel0] at hlenEq
+        cases r0 with
+        | nil => rfl
+        | cons y r => simp at hlenEq; omega
+      have hsz8 : v.size ≤ 8 := by
+        by_cases h : v.size ≤ 8
+        · exact h
+        · exfalso
+          obtain ⟨e8, he8, h88⟩ := g.dense 8 (Or.inr rfl) hM8 8 (by decide) (by omega)
+          rw [hel0, hr0] at he8
+          simp only [List.mem_cons, List.mem_nil_iff, or_false] at he8
+          rw [he8] at h88; omega
+      obtain ⟨o, s⟩ := x0
+      simp only at hx0; subst hx0; subst hr0
+      simp only [AAPCS64.kindImage, AAPCS64.directImage, AAPCS64.classify, hel0, List.map_cons, List.map_nil,
+        if_neg h0]
+      cases hh : AAPCS64.isHFA [s] with
+      | some p => simp
+      | none =>
+        have := isHFA_single_sse s hh
+        have h1 : (v.size + 7) / 8 = 1 := by omega
+        simp [this, h1]; omega
+    · rw [if_neg hb1]
+      by_cases hb2 : twoPtrOrI64 v.types = true
+      · rw [if_pos hb2]
+        -- exactly two 8-byte integer leaves: at offsets 0 and 8, 16 bytes
+        obtain ⟨a, b, htab, ha, hb⟩ : ∃ a b, v.types = [a, b] ∧ isPtrOrI64 a = true ∧ isPtrOrI64 b = true := by
+          unfold twoPtrOrI64 at hb2
+          split at hb2
+          · rename_i a b heq
+            simp only [Bool.and_eq_true] at hb2
+            exact ⟨a, b, heq, hb2.1, hb2.2⟩
+          · simp at hb2
+        have hl2 : v.elems.length = 2 := by rw [← hlenEq, htab]; rfl
+        obtain ⟨e0, e1, hel⟩ := exists_two v.elems hl2
+        have he0 : e0.1 = 0 := by
+          rw [hel] at hel0
+          simp only [List.cons.injEq] at hel0
+          rw [hel0.1]; exact hx0
+        have hta : e0.2 = a ∧ e1.2 = b := by
+          rw [htab, hel] at hty
+          simp only [List.map_cons, List.map_nil, List.cons.injEq, and_true] at hty
+          exact ⟨hty.1.symm, hty.2.symm⟩
+        have sa : e0.2.size = 8 := by rw [hta.1]; revert ha; cases a <;> simp [isPtrOrI64, Scalar.size]
+        have sb : e1.2.size = 8 := by rw [hta.2]; revert hb; cases b <;> simp [isPtrOrI64, Scalar.size]
+        have hs := g.sorted
+        rw [hel] at hs
+        have h01 := (List.pairwise_cons.mp hs).1 e1 (by simp)
+        have hin1 := (g.leaf e1 (by rw [hel]; simp)).2
+        have he1 : e1.1 = 8 := by
+          obtain ⟨e8, he8, h88⟩ := g.dense 8 (Or.inr rfl) hM8 8 (by decide) (by omega)
+          rw [hel] at he8
+          simp only [List.mem_cons, List.mem_nil_iff, or_false] at he8
+          rcases he8 with h | h
+          · rw [h] at h88; omega
+          · rw [← h]; exact h88
+        have hs16 : v.size = 16 := by
+          by_cases h : v.size ≤ 16
+          · omega
+          · exfalso
+            obtain ⟨e, he, hee⟩ := g.dense 8 (Or.inr rfl) hM8 16 (by decide) (by omega)
+            rw [hel] at he
+            simp only [List.mem_cons, List.mem_nil_iff, or_false] at he
+            rcases he with h' | h' <;> rw [h'] at hee <;> omega
+        obtain ⟨o0, s0⟩ := e0
+        obtain ⟨o1, s1⟩ := e1
+        simp only at he0 he1 hta
+        subst he0; subst he1
+        obtain ⟨rfl, rfl⟩ := hta
+        obtain ⟨f1, f2⟩ := allEq_ptrOrI64 s0 [s1] ha
+        simp [AAPCS64.kindImage, AAPCS64.directImage, AAPCS64.classify, hel, AAPCS64.isHFA, f1, f2, ha, hb, hs16]
+      · rw [if_neg hb2]
+        have hne : v.elems.map (·.2) ≠ [] := by rw [hel0]; simp
+        by_cases hb3 : (decide (v.types.length ≤ 4) && (allEq v.types .f32 || allEq v.types .f64)) = true
+        · rw [if_pos hb3]
+          simp only [Bool.and_eq_true, decide_eq_true_eq, Bool.or_eq_true] at hb3
+          have hh : ∃ p, AAPCS64.isHFA (v.elems.map (·.2)) = some p := by
+            rw [← hty]
+            unfold AAPCS64.isHFA
+            have hl : ¬ (v.types.length = 0 ∨ 4 < v.types.length) := by
+              rw [hlenEq, hel0]; simp; rw [hlenEq, hel0] at hb3; simpa using hb3.1
+            rw [if_neg hl]
+            rcases hb3.2 with h | h
+            · rw [if_pos h]; exact ⟨_, rfl⟩
+            · by_cases h' : allEq v.types .f32 = true
+              · rw [if_pos h']; exact ⟨_, rfl⟩
+              · rw [if_neg h', if_pos h]; exact ⟨_, rfl⟩
+          obtain ⟨p, hp⟩ := hh
+          have hene : v.elems ≠ [] := by rw [hel0]; simp
+          simp [AAPCS64.kindImage, AAPCS64.directImage, AAPCS64.classify, hene, hp, h0]
+        · rw [if_neg hb3]
+          have hnone : AAPCS64.isHFA (v.elems.map (·.2)) = none := by
+            rw [← hty]
+            unfold AAPCS64.isHFA
+            by_cases hl : v.types.length = 0 ∨ 4 < v.types.length
+            · rw [if_pos hl]
+            · rw [if_neg hl]
+              have hl4 : v.types.length ≤ 4 := by omega
+              simp only [Bool.and_eq_true, decide_eq_true_eq, Bool.or_eq_true, not_and, not_or] at hb3
+              have := hb3 hl4
+              rw [if_neg this.1, if_neg this.2]
+          by_cases h16 : v.size > 16
+          · rw [if_pos h16]
+            simp [AAPCS64.kindImage, AAPCS64.classify, h0, hnone, h16]
+          · rw [if_neg h16]
+            by_cases h8 : v.size ≤ 8
+            · rw [if_pos h8]
+              have h1 : (v.size + 7) / 8 = 1 := by omega
+              cases isRet <;> simp [AAPCS64.kindImage, AAPCS64.classify, h0, hnone, h16, h8, h1]
+            · rw [if_neg h8]
+              have h2 : (v.size + 7) / 8 = 2 := by omega
+              have : v.size ≤ 16 := by omega
+              simp [AAPCS64.kindImage, AAPCS64.classify, h0, hnone, h16, this, h2]
+
+theorem arm64_sound_scalar (s : Scalar) (isRet : Bool) :
+    AAPCS64.Sound (classifyArm64 (.sc s) isRet) (CType.sc s).view := by
+  cases s <;> cases isRet <;> decide
 
 end LlgoVerif.CAbi
